@@ -6,11 +6,16 @@
 #include <cstring>
 #include <csignal>
 #include <sstream>
+#include <thread>
+#include <exception>
 #include <unistd.h>
 #include <sys/wait.h>
 
 using namespace nix;
 
+#ifdef NIXSIM_COV
+extern "C" void __gcov_dump(void);
+#endif
 namespace sim {
 
 bool lane_is_special(const std::string &lane) { return lane == "ids" || lane == "xkill"; }
@@ -348,6 +353,11 @@ static void list_ids(const File &f, const std::string &full, std::ostringstream 
     std::vector<std::pair<std::string, std::string> > recs;
     collect_records(d, "", recs);
     o << " " << tag << "|/|" << d.field("id");
+    {   // everything a user can read (values, data, links), in one token: "<file>|#|<hash>"
+        ObsOpts full; uint64_t g2 = 0;
+        Node fd = observe(f, full, nullptr, &g2);
+        o << " " << tag << "|#|" << hex64(node_hash(fd));
+    }
     for (auto &p : recs) {
         std::string path = p.first;
         for (auto &ch : path) if (ch == ' ' || ch == '\n') ch = '_';
@@ -358,6 +368,7 @@ static void list_ids(const File &f, const std::string &full, std::ostringstream 
 // child main loop: commands "<clock> <action> <arg> <sub>"; replies one line
 static void child_loop(int from_parent, int to_parent, const std::string &dir, int index, uint64_t entropy) {
     entropy_seed(entropy);
+    pid_set(5000 + (int) ((entropy >> 7) % 2));      // simulated processes often share a pid (other machine, pid reuse)
     File f; std::string cur; int burst = 0;
     std::string line;
     while (read_line(from_parent, line)) {
@@ -374,23 +385,37 @@ static void child_loop(int from_parent, int to_parent, const std::string &dir, i
             case 3: {
                 if (!f) { out << "skip"; break; }
                 Rng r(sub);
+                bool from_thread = ((sub >> 40) % 4) == 0;      // this burst is issued from a second caller thread (joined before going on)
+                std::exception_ptr thr_err;
+                auto burst_fn = [&]() { try {
                 std::string sfx = "_p" + std::to_string(index) + "_" + std::to_string(burst++);
                 Block b = f.blockCount() && r.chance(1, 2) ? f.getBlock(r.below(f.blockCount())) : f.createBlock("b" + sfx, "t");
                 int n = r.range(1, 5);
                 for (int i = 0; i < n; i++) {
                     std::string nm = "e" + sfx + "_" + std::to_string(i);
                     switch (r.range(0, 8)) {
-                        case 0: b.createDataArray(nm, "t", DataType::Double, NDSize({2})); break;
+                        case 0: { DataArray a = b.createDataArray(nm, "t", DataType::Double, NDSize({2}));
+                                  if (r.chance(2, 3)) { std::vector<double> v((size_t) r.range(1, 40)); for (auto &x : v) x = (double) r.range(-1000, 1000); a.setData(v); a.label("l" + sfx); }
+                                  if (r.chance(1, 3)) a.appendRangeDimension({1.0, 2.0, 3.5});
+                                  break; }
                         case 1: { Tag t = b.createTag(nm, "t", {1.0}); if (b.dataArrayCount()) t.createFeature(b.getDataArray((ndsize_t) 0), LinkType::Tagged); break; }
                         case 2: b.createGroup(nm, "t"); break;
                         case 3: b.createSource(nm, "t").createSource("child", "t"); break;
-                        case 4: { Section s = f.createSection(nm, "t"); s.createProperty("p", Variant(1.0)); s.createSection("sub", "t"); break; }
+                        case 4: { Section s = f.createSection(nm, "t"); s.createProperty("p", Variant((double) r.range(0, 99))); s.createSection("sub", "t");
+                                  if (r.chance(1, 2)) { std::vector<Variant> vs; int k = r.range(1, 12); for (int j = 0; j < k; j++) vs.push_back(Variant("v" + std::to_string(r.range(0, 999)))); s.createProperty("sv", vs); }
+                                  if (r.chance(1, 2)) b.metadata(s);
+                                  break; }
                         case 5: { if (b.dataArrayCount()) b.createMultiTag(nm, "t", b.getDataArray((ndsize_t) 0)); break; }
-                        case 6: { std::vector<Column> cols(1); cols[0].name = "c"; cols[0].unit = ""; cols[0].dtype = DataType::Double; b.createDataFrame(nm, "t", cols); break; }
+                        case 6: { std::vector<Column> cols(1); cols[0].name = "c"; cols[0].unit = ""; cols[0].dtype = DataType::Double; DataFrame df = b.createDataFrame(nm, "t", cols);
+                                  if (r.chance(1, 2)) { df.rows(3); df.writeRow(1, {Variant((double) r.range(0, 99))}); }
+                                  break; }
                         case 7: { if (f.sectionCount()) f.getSection((ndsize_t) 0).createProperty("q" + sfx + std::to_string(i), DataType::Int32); break; }
                         default: f.createBlock("bb" + nm, "t"); break;
                     }
                 }
+                } catch (...) { thr_err = std::current_exception(); } };
+                if (from_thread) { std::thread t(burst_fn); t.join(); } else burst_fn();
+                if (thr_err) std::rethrow_exception(thr_err);
                 out << "ok"; list_ids(f, cur, out);
                 break;
             }
@@ -410,6 +435,9 @@ static void child_loop(int from_parent, int to_parent, const std::string &dir, i
         out << "\n";
         if (!write_all(to_parent, out.str())) break;
     }
+#ifdef NIXSIM_COV
+    __gcov_dump();
+#endif
     _exit(0);
 }
 
@@ -456,6 +484,7 @@ int run_special(World &w, const Plan &p, const std::string &dir) {
             file = tok.substr(0, p1);
             std::string key = tok.substr(0, p2), id = tok.substr(p2 + 1);
             ids.push_back(tok);
+            if (key.size() > 2 && key.compare(key.size() - 2, 2, "|#") == 0) continue;     // content hash, not an id
             present.insert(key);
             if (!wellformed_uuid(id)) { w.fail("C12.wellformed", "id '" + id + "' of " + key + " is not a well-formed UUID"); return; }
             auto it = first.find(key);
